@@ -432,7 +432,7 @@ def co2s(draw, y0, y1, kinds=None):
         return {"constant_default": True}
     base = float(draw(st.integers(280, 900)))
     slope = draw(f1(-2.0, 25.0))
-    step = draw(st.sampled_from([1, 1, 5, 10]))       # yearly, 5-yearly or decadal entries (interpolated in between)
+    step = draw(st.sampled_from([1, 5, 5, 10]))       # yearly, 5-yearly or decadal entries (interpolated in between)
     first = (y0 - 1) - ((y0 - 1) % step) - (step if step > 1 else 0)
     return {"table": [[y, max(250.0, base + slope * (y - y0))] for y in range(first, y1 + 2 * step + 1, step)]}
 
